@@ -92,6 +92,21 @@ def gen_cases(tier, seed):
         lines = ["diff --git a/app.log b/app.log", "index 1111111..2222222 100644", "--- a/app.log", "+++ b/app.log",
                  "@@ -1,%d +1,%d @@" % (sum(1 for b in body if b[0] in " -"), sum(1 for b in body if b[0] in " +"))] + body
         cases.append({"lines": lines, "mode": r.choice(MODES), "kind": "coloured-hunk-lines" + ("-invalid-utf8" if i % 2 == 0 else ""), "pty": False})
+    # `git log --stat --color` started from a sub-directory: coloured histograms in diff-stat lines that --relative-paths rewrites
+    for i in range(n // 4):
+        r = vlib.case_rng(seed, PID, ("coloured-stat", i))
+        d = gdiff.gen_diff(r, nsec=r.randint(1, 2), log=False)
+        stat = []
+        for s_ in d["sections"]:
+            name = s_["new"] if s_["new"] != "/dev/null" else s_["old"]
+            a, b = r.randint(0, 9), r.randint(0, 9)
+            rs = r.choice(["\x1b[m", "\x1b[0m"])
+            hist = ("\x1b[32m" + "+" * a + rs if a else "") + ("\x1b[31m" + "-" * b + rs if b else "")
+            stat.append(" %s | %d %s" % (name.ljust(12), a + b, hist))
+        lines = ["commit " + "%040x" % r.getrandbits(160), "Author: A U Thor <a@example.com>", "", "    msg", ""] + stat + \
+                [" %d files changed, 3 insertions(+), 2 deletions(-)" % len(stat), ""] + gdiff.diff_lines(d)
+        cases.append({"lines": lines, "mode": ["--relative-paths"] + r.choice(MODES), "kind": "coloured-diff-stat", "pty": False,
+                      "git_prefix": r.choice(["", "src/", "dir/"])})
     for m in MODES:   # every mode at least once
         r = vlib.case_rng(seed, PID, "m" + " ".join(m))
         cases.append({"lines": gdiff.diff_lines(gdiff.gen_diff(r, nsec=2, log=True)), "mode": m, "kind": "plain", "pty": False})
@@ -172,7 +187,7 @@ def main(tier, replay=None):
         args = ["--no-gitconfig", "--paging", "never"] + c["mode"]
         if c["pty"]:
             return run_on_pty(args, inp) + (b"",)
-        return vlib.run_delta(args, stdin=inp)
+        return vlib.run_delta(args, stdin=inp, env_extra=({"GIT_PREFIX": c["git_prefix"]} if c.get("git_prefix") is not None else None))
 
     with ThreadPoolExecutor(max_workers=vlib.NCPU) as ex:
         results = list(ex.map(work, cases))
